@@ -335,6 +335,34 @@ def run_one(cfg, decisions=None, keep_events=False):
                 probe("cutoff_excluded_points")
             if cutoff > 0 and np.any(valid & (wk == cutoff)) and len(order) <= 1:
                 probe("weight_equals_cutoff_exactly")
+            # The per-point values come out of the kernel already multiplied by the
+            # weight *the kernel* applied to that accumulator.  Volumes and the
+            # effective radius do not depend on orientation, so mesh points that
+            # differ only in their jitter angles must give the same V and R once
+            # the common weight is divided out: an accumulator that is weighted
+            # differently from the others shows up here.
+            orient_loops = [j for j in order if cpars[2 + j].type == "orientation"]
+            if orient_loops and cfg["dtype"] == "double" and not violations:
+                shape_loops = [l for l, j in enumerate(order) if cpars[2 + j].type != "orientation"]
+                keys = np.zeros(n_loop, dtype=np.int64)
+                for l in shape_loops:
+                    keys = keys * (lens[l] + 1) + (np.arange(n_loop) // strides[l]) % lens[l]
+                slots = [base + 1, base + 2] + ([base + 3] if mode else [])
+                with np.errstate(all="ignore"):
+                    derived = np.array(contrib[:, slots], "d") / wk[:, None]
+                for g in np.unique(keys[valid]):
+                    rows = derived[valid & (keys == g)]
+                    spread = rows.max(axis=0) - rows.min(axis=0)
+                    if np.any(spread > 1e-10 * (np.abs(rows).max(axis=0) + 1e-300)):
+                        which = ["form volume", "shell volume", "effective radius"][int(np.argmax(
+                            spread / (np.abs(rows).max(axis=0) + 1e-300)))]
+                        fail("A4", "the %s accumulated per mesh point depends on the orientation jitter of the point "
+                             "(points that differ only in jitter angles give %r .. %r after the common weight is "
+                             "divided out): that accumulator is not weighted like the others"
+                             % (which, float(rows.min(axis=0)[np.argmax(spread)]), float(rows.max(axis=0)[np.argmax(spread)])),
+                             cause="accumulator_weighting")
+                        break
+                probe("orientation_independent_accumulators_checked")
             gated = np.where(include[:, None], contrib, np.longdouble(0))   # (NaN * 0 would poison the sum)
             prefix = np.vstack([np.zeros((1, base + 4), np.longdouble), np.cumsum(gated, axis=0)])
             mags = np.cumsum(np.abs(gated), axis=0)
